@@ -68,11 +68,11 @@ int main(int argc, char **argv)
 			uint8_t rev[4096]; size_t rl = 0;
 			if (rc == 1 && !strcmp(kind, "crl")) {
 				char rb[2048]; snprintf(rb, sizeof rb, "%s", kv_str(&kv, "revoked", "")); char *sp = NULL; uint8_t *rp = rev;
-				for (char *t = strtok_r(rb, ",", &sp); t && rc == 1; t = strtok_r(NULL, ",", &sp)) { uint8_t s[64]; int n = vh_unhex(t, s, 64); rc = x509_revoked_cert_to_der(s, (size_t)n, nb - 3600, NULL, 0, &rp, &rl); }
+				for (char *t = strtok_r(rb, ",", &sp); t && rc == 1; t = strtok_r(NULL, ",", &sp)) { uint8_t s[64]; if (!strcmp(t, "-")) continue; int n = vh_unhex(t, s, 64); rc = x509_revoked_cert_to_der(s, (size_t)n, nb - 3600, NULL, 0, &rp, &rl); }
 			}
 			if (rc == 1) {
 				if (!strcmp(kind, "cert")) rc = x509_cert_sign_to_der(X509_version_v3, serial, sl, OID_sm2sign_with_sm3, iss, il, nb, na, sub, sbl, &ksub, NULL, 0, NULL, 0, el ? ex : NULL, el, &kiss, (char *)sid, sidl, &p, &ol);
-				else if (!strcmp(kind, "req")) rc = x509_req_sign_to_der(X509_version_v1, sub, sbl, &ksub, NULL, 0, OID_sm2sign_with_sm3, &ksub, (char *)sid, sidl, &p, &ol);
+				else if (!strcmp(kind, "req")) rc = x509_req_sign_to_der(X509_version_v1, sub, sbl, &ksub, ex /* empty attribute set: the tools pass a buffer with length 0 */, 0, OID_sm2sign_with_sm3, &ksub, (char *)sid, sidl, &p, &ol);
 				else rc = x509_crl_sign_to_der(X509_version_v2, OID_sm2sign_with_sm3, iss, il, nb, na, rl ? rev : NULL, rl, el ? ex : NULL, el, &kiss, (char *)sid, sidl, &p, &ol);
 			}
 			uint8_t pk[64]; sm2_z256_point_to_bytes(&ksub.public_key, pk);
@@ -92,7 +92,7 @@ int main(int argc, char **argv)
 			const char *obj = kv_str(&kv, "obj", "cert"); const SM2_KEY *k = !strcmp(kv_str(&kv, "key", "right"), "right") ? (strcmp(obj, "req") ? &kiss : &ksub) : &kother; int rc;
 			if (!strcmp(obj, "cert")) rc = x509_signed_verify(der, dl, k, (char *)sid, sidl);
 			else if (!strcmp(obj, "req")) { if (k == &ksub) rc = x509_req_verify(der, dl, (char *)sid, sidl); else rc = x509_signed_verify(der, dl, k, (char *)sid, sidl); }
-			else rc = x509_crl_verify(der, dl, k, (char *)sid, sidl);
+			else rc = x509_signed_verify(der, dl, k, (char *)sid, sidl); // x509_crl_verify is declared but not built; CRLs verify through the generic signed-object check
 			vt_begin("Verify"); vt_int("id", kv_int(&kv, "id", 0)); vt_int("rc", rc); vt_end();
 		} else if (!strcmp(kind, "lookup")) {
 			time_t rd = 0; const uint8_t *ee; size_t eel; int rc = x509_crl_find_revoked_cert_by_serial_number(der, dl, serial, sl, &rd, &ee, &eel);
